@@ -4,3 +4,7 @@ from props import c01
 
 def run(ctx, res):
     c01.run_mode(ctx, res, "C02")
+
+
+def selftest(ctx):
+    return c01.selftest_mode(ctx, "C02")
